@@ -253,6 +253,13 @@ RwWriteOps == {"wrlock", "trywrlock", "wrunlock"}
     [] g = "rws" -> rws
 #! FAITHFUL
 , "rws"
+#! PINNED
+ @@ ("fiber_rwlock_rdlock:hi:R" :> {"rdl0"}) @@ ("fiber_rwlock_rdlock:lo:R" :> {"rdl0"}) @@ ("fiber_rwlock_rdlock:hi:CAS" :> {"rdl1"}) @@ ("fiber_rwlock_rdlock:lo:CAS" :> {"rdl1"})
+ @@ ("fiber_rwlock_wrlock:hi:R" :> {"wrl0"}) @@ ("fiber_rwlock_wrlock:lo:R" :> {"wrl0"}) @@ ("fiber_rwlock_wrlock:hi:CAS" :> {"wrl1"}) @@ ("fiber_rwlock_wrlock:lo:CAS" :> {"wrl1"})
+ @@ ("fiber_rwlock_tryrdlock:hi:R" :> {"trl0"}) @@ ("fiber_rwlock_tryrdlock:lo:R" :> {"trl0"}) @@ ("fiber_rwlock_tryrdlock:hi:CAS" :> {"trl1"}) @@ ("fiber_rwlock_tryrdlock:lo:CAS" :> {"trl1"})
+ @@ ("fiber_rwlock_trywrlock:hi:R" :> {"twl0"}) @@ ("fiber_rwlock_trywrlock:lo:R" :> {"twl0"}) @@ ("fiber_rwlock_trywrlock:hi:CAS" :> {"twl1"}) @@ ("fiber_rwlock_trywrlock:lo:CAS" :> {"twl1"})
+ @@ ("fiber_rwlock_rdunlock:hi:R" :> {"rul0"}) @@ ("fiber_rwlock_rdunlock:lo:R" :> {"rul0"}) @@ ("fiber_rwlock_rdunlock:hi:CAS" :> {"rul1"}) @@ ("fiber_rwlock_rdunlock:lo:CAS" :> {"rul1"})
+ @@ ("fiber_rwlock_wrunlock:hi:R" :> {"wul0"}) @@ ("fiber_rwlock_wrunlock:lo:R" :> {"wul0"}) @@ ("fiber_rwlock_wrunlock:hi:CAS" :> {"wul1"}) @@ ("fiber_rwlock_wrunlock:lo:CAS" :> {"wul1"})
 #! FNPROC
 ,
            fiber_rwlock_rdlock |-> {"rw_rdlock"},
